@@ -116,3 +116,90 @@ def replay_tally_getter(rec):
                     return {"reproduced": True, "input": {"observations": seq, "call": meth, "args": args},
                             "observed": "%s: %s" % (type(e).__name__, e)}
     return {"reproduced": False, "note": "no failing observation sequence found (n<=6 candidates)"}
+
+
+def tally_reference(seq):
+    """Textbook statistics of a finite sequence in exact rational arithmetic (floats where
+    roots are needed).  None = undefined."""
+    from fractions import Fraction as F
+    n = len(seq)
+    xs = [F(x) for x in seq]
+    ref = {"n": n, "sum": sum(xs, F(0)) if n else F(0),
+           "min": min(xs) if n else None, "max": max(xs) if n else None}
+    if n == 0:
+        ref.update(mean=None, var_b=None, var_u=None, skew_b=None, skew_u=None, kurt_b=None, kurt_u=None,
+                   exk_b=None, exk_u=None)
+        return ref
+    mu = ref["sum"] / n
+    m2 = sum((x - mu) ** 2 for x in xs)
+    m3 = sum((x - mu) ** 3 for x in xs)
+    m4 = sum((x - mu) ** 4 for x in xs)
+    ref["mean"] = mu
+    ref["var_b"] = m2 / n
+    ref["var_u"] = m2 / (n - 1) if n > 1 else None
+    vb = float(m2 / n)
+    ref["skew_b"] = (float(m3 / n) / vb ** 1.5) if (n > 1 and m2 > 0) else None
+    ref["skew_u"] = (ref["skew_b"] * math.sqrt(n * (n - 1)) / (n - 2)) if (n > 2 and m2 > 0) else None
+    ref["kurt_b"] = (float(m4 / n) / vb / vb) if (n > 2 and m2 > 0) else None
+    vu = float(m2 / (n - 1)) if n > 1 else None
+    ref["kurt_u"] = (float(m4 / (n - 1)) / vu / vu) if (n > 3 and m2 > 0) else None
+    ref["exk_b"] = ref["kurt_b"] - 3.0 if ref["kurt_b"] is not None else None
+    ref["exk_u"] = ((n - 1) / (n - 2) / (n - 3)) * ((n + 1) * ref["exk_b"] + 6) if (n > 3 and m2 > 0) else None
+    return ref
+
+
+def close(a, ref, tol=1e-7):
+    if ref is None:
+        return isinstance(a, float) and math.isnan(a)
+    if isinstance(a, float) and math.isnan(a):
+        return False
+    r = float(ref)
+    return abs(a - r) <= tol * max(1.0, abs(r))
+
+
+def tally_mismatch(t, seq):
+    ref = tally_reference(seq)
+    got = {"n": t.n(), "sum": t.sum(), "min": t.min(), "max": t.max(), "mean": t.mean(),
+           "var_b": t.variance(), "var_u": t.variance(False), "skew_b": t.skewness(),
+           "skew_u": t.skewness(False), "kurt_b": t.kurtosis(), "kurt_u": t.kurtosis(False),
+           "exk_b": t.excess_kurtosis(), "exk_u": t.excess_kurtosis(False)}
+    for k in got:
+        if k == "n":
+            if got[k] != ref[k]:
+                return k, got[k], ref[k]
+        elif not close(got[k], ref[k]):
+            return k, got[k], (float(ref[k]) if ref[k] is not None else None)
+    return None
+
+
+@replayer(r"(Tally|EventBasedTally|SimTally)\.(register|initialize|__init__)")
+def replay_tally_register(rec):
+    """A refuted invariant/postcondition of register/initialize: search (model guided by n,
+    bounded) for a history whose getters disagree with the exact reference, or that raises
+    an exception the contract does not admit."""
+    from pydsol.core.statistics import Tally
+    rng = random.Random(2)
+    n = parse_num(mval(rec, "self._n"), 2) or 0
+    want = exc_class_of(rec)
+    ns = [min(int(n) + 1, 8)] + [k for k in range(1, 8)]
+    for k in ns:
+        for seq in candidate_sequences(k, rng):
+            for reinit in (False, True):
+                t = Tally("replay")
+                try:
+                    if reinit:
+                        t.register(42.0)
+                        t.register(-7.0)
+                        t.initialize()
+                    for x in seq:
+                        t.register(x)
+                    mm = tally_mismatch(t, seq)
+                except Exception as e:
+                    if want is None or exc_matches(e, want):
+                        return {"reproduced": True, "input": {"observations": seq, "reinitialised_before": reinit},
+                                "observed": "%s: %s" % (type(e).__name__, e)}
+                    continue
+                if mm is not None and want is None:
+                    return {"reproduced": True, "input": {"observations": seq, "reinitialised_before": reinit},
+                            "observed": "getter %s returned %r, exact reference %r" % mm}
+    return {"reproduced": False, "note": "no failing history found (n<=7 candidate sequences)"}
